@@ -184,6 +184,24 @@ impl Ctx {
             });
         }
     }
+    /// does this signature still need an example (replay + detail)?
+    pub fn wants(&self, signature: &str) -> bool {
+        self.viol_by_sig.get(signature).copied().unwrap_or(0) < MAX_VIOL_PER_SIG
+    }
+    /// like `violation`, but detail and replay are only built while examples are still wanted
+    pub fn violation_lazy(&mut self, signature: String, rule: &str, f: impl FnOnce() -> (String, Value)) {
+        if self.wants(&signature) && self.violations.len() < MAX_VIOL_TOTAL {
+            let (detail, replay) = f();
+            self.violation(signature, rule, detail, replay);
+        } else {
+            *self.viol_by_sig.entry(signature).or_insert(0) += 1;
+        }
+    }
+    /// so many violations that going on only burns time: workloads may stop early (the
+    /// verdict is already decided; evidence records that the run was cut short)
+    pub fn saturated(&self) -> bool {
+        self.viol_by_sig.values().sum::<u64>() >= 20_000
+    }
     pub fn panic_violation(&mut self, rule: &str, p: &PanicEv, what: &str, replay: Value) {
         self.count("panics_observed");
         self.violation(
